@@ -309,6 +309,9 @@ class ClassInfo:
                 elif isinstance(n, ast.AnnAssign) and n.value is not None:
                     targets = [(n.target, n.value)]
                 for t, v in targets:
+                    if isinstance(t, ast.Tuple):
+                        # tuple unpacking: the value is split, its constructor says nothing about each part's kind
+                        v = ast.Constant(None)
                     for tt in t.elts if isinstance(t, ast.Tuple) else [t]:
                         if (
                             isinstance(tt, ast.Attribute)
